@@ -17,7 +17,7 @@ namespace he {
 
 using isal::call_fn;
 
-enum { K_SUBMIT = 0, K_FLUSH = 1, K_BAD = 2 };
+enum { K_SUBMIT = 0, K_FLUSH = 1, K_BAD = 2, K_DRAIN = 3 }; // K_DRAIN: flush until at most `pick` contexts are held
 enum { BAD_FLAGS = 0, BAD_PROCESSING = 1, BAD_COMPLETED = 2 };
 
 struct Cmd {
@@ -47,6 +47,7 @@ static inline J to_json(const Case &c)
         for (auto &m : c.cmds) {
                 J o = J::obj();
                 if (m.kind == K_FLUSH) o.set("op", "flush");
+                else if (m.kind == K_DRAIN) o.set("op", "drain").set("pick", m.pick);
                 else if (m.kind == K_SUBMIT) {
                         o.set("op", "submit").set("pick", m.pick).set("fin", m.fin).set("len", m.len).set("place", m.place).set("shift", m.shift);
                         if (m.null_buf) o.set("null_buf", 1);
@@ -68,7 +69,7 @@ static inline Case from_json(const J &j)
         for (auto &o : j.at("cmds").a) {
                 Cmd m;
                 std::string op = o.at("op").s;
-                m.kind = op == "flush" ? K_FLUSH : op == "submit" ? K_SUBMIT : K_BAD;
+                m.kind = op == "flush" ? K_FLUSH : op == "drain" ? K_DRAIN : op == "submit" ? K_SUBMIT : K_BAD;
                 m.pick = (uint32_t) o.unum("pick", 0);
                 m.fin = (int) o.num("fin", 0);
                 m.len = (uint32_t) o.unum("len", 0);
@@ -123,6 +124,42 @@ static inline Case gen_case(const isal::HashFamily &f, const GenOpts &go)
         c.prefill = rng<int>(0, 255);
         unsigned B = isal::algo_desc[f.algo].block;
         int n = rng<int>(1, go.max_cmds);
+        if (coin(2, 5)) {
+                // phased history: fill the manager (around its lane count), drain it down to 0..3 held contexts, repeat.  Reaches "all lanes in use",
+                // "exactly one lane left" and "refill after a drain" far more often than independent random commands do.
+                if (c.nctx < lanes + 1) c.nctx = lanes + rng<int>(1, 3);
+                int budget = go.max_cmds + 20;
+                while (budget > 0) {
+                        int fill = weighted({ 3, 2 }) == 0 ? pick<int>({ lanes - 1 > 0 ? lanes - 1 : 1, lanes, lanes, lanes + 1 }) : rng<int>(1, 2 * lanes);
+                        for (int i = 0; i < fill && budget > 0; i++, budget--) {
+                                Cmd m;
+                                m.kind = K_SUBMIT;
+                                m.pick = rng<uint32_t>(0, 1023);
+                                m.fin = weighted({ 1, 3 });
+                                m.len = gen_len(B, go.big_max > 4096 ? 4096 : go.big_max);
+                                if (i == fill - 1 && coin()) m.len = m.len * 4 + 5 * B; // the last job of a fill phase is often the longest one
+                                m.place = weighted({ 2, 1 });
+                                m.shift = coin(1, 3) ? rng<uint32_t>(0, 63) : 0;
+                                c.cmds.push_back(m);
+                                if (go.allow_bad && rng<int>(0, 99) < go.bad_pct / 2) {
+                                        Cmd b;
+                                        b.kind = K_BAD;
+                                        b.bad = rng<int>(0, 2);
+                                        b.pick = rng<uint32_t>(0, 1023);
+                                        b.len = rng<uint32_t>(0, 2 * B);
+                                        b.raw = pick<uint32_t>({ 4u, 8u, 0x80u, 0x80000000u }) | rng<uint32_t>(0, 3);
+                                        c.cmds.push_back(b);
+                                }
+                        }
+                        Cmd d;
+                        d.kind = K_DRAIN;
+                        d.pick = (uint32_t) pick<int>({ 0, 1, 1, 1, 2, 3 });
+                        c.cmds.push_back(d);
+                        budget -= 3;
+                        if (coin(1, 3)) break;
+                }
+                return c;
+        }
         // long histories with many contexts: bias to submits so that lanes fill up
         int flush_w = pick<int>({ 2, 8, 20 });
         for (int i = 0; i < n; i++) {
@@ -334,6 +371,7 @@ static inline bool execute(const Case &cs, const isal::HashFamily &f, pbt::Ctx &
                 return true;
         };
 
+        int drain_guard = 0;
         for (size_t ci = 0; ci < cs.cmds.size(); ci++) {
                 const Cmd &cm = cs.cmds[ci];
                 std::vector<int> avail, heldv, complete_owned;
@@ -345,6 +383,12 @@ static inline bool execute(const Case &cs, const isal::HashFamily &f, pbt::Ctx &
                         }
                 }
                 int kind = cm.kind;
+                bool repeat_cmd = false;
+                if (kind == K_DRAIN) {
+                        if ((int) heldv.size() <= (int) cm.pick || drain_guard++ > 4 * cs.nctx + 8) { drain_guard = 0; continue; }
+                        kind = K_FLUSH;
+                        repeat_cmd = true; // stay on this command until the manager holds at most `pick` contexts
+                }
                 if (kind == K_SUBMIT && avail.empty()) kind = K_FLUSH;
 
                 if (kind == K_SUBMIT) {
@@ -515,6 +559,7 @@ static inline bool execute(const Case &cs, const isal::HashFamily &f, pbt::Ctx &
                 std::string cn = A.check_canaries();
                 if (!cn.empty())
                         if (failx("canary", cn + " after cmd " + std::to_string(ci))) return false;
+                if (repeat_cmd) ci--;
         }
 
         if (eo.drain) {
